@@ -378,6 +378,27 @@ Proof.
     destruct l as [x idx]. apply Hag, Hl.
 Qed.
 
+(* The same for ANY list V of recorded inputs and ANY statement list as the semantics of the region (used for
+   regions with calls, whose semantics is the expansion of the callee): if no upward-exposed read of the run is
+   outside V, the run replays from any store agreeing on V. *)
+Theorem replay_sound_any (V : list name) f r s1 s1' tr c s2 :
+  exec f r s1 = Ok s1' tr c ->
+  (forall l, In l (exposed tr) -> In (fst l) V) ->
+  bnd s2 = bnd s1 -> agree_on V s1 s2 ->
+  exists s2', exec f r s2 = Ok s2' tr c /\ bnd s2' = bnd s1' /\
+    (forall l, In (fst l) V \/ In l (writes tr) -> val s2' l = val s1' l).
+Proof.
+  intros H Hex Hb Hag.
+  destruct (exec_frame f r s1 s1' tr c s2 H Hb) as [s2' [R1 [R2 [R3 R4]]]].
+  { intros [x idx] Hl. apply Hag. apply (Hex (x, idx) Hl). }
+  exists s2'. split; [exact R1|]. split.
+  - rewrite R2, Hb. symmetry. apply (exec_bnd _ _ _ _ _ _ H).
+  - intros l Hl. destruct (in_dec loc_eq_dec l (writes tr)) as [I|N]; [apply R3, I|].
+    destruct Hl as [Hl|Hl]; [|contradiction].
+    rewrite R4 by exact N. rewrite (exec_unchanged _ _ _ _ _ _ l H N).
+    destruct l as [x idx]. apply Hag, Hl.
+Qed.
+
 (* FULL STATEMENT (false of the faithful model, see the refutations below):
      forall r s1 s2, bnd s2 = bnd s1 -> agree_on (inputs sh r) s1 s2 ->
        exec f r s1 = Ok s1' tr CNormal ->
@@ -430,6 +451,15 @@ Proof.
   - intros [k [H1 H2]]. split.
     + apply in_sigs, in_map_iff. exists (x, k). split; [reflexivity | exact H1].
     + exists k. split; [apply in_of_var; exact H1 | exact H2].
+Qed.
+
+(* a by-reference argument of a non-pure call (READWRITE) is both an input and an output *)
+Theorem readwrite_in_out x l :
+  In (x, READWRITE) l -> (wfirst x l = false -> In x (inputs_of l)) /\ In x (outputs_of l).
+Proof.
+  intro H. split.
+  - intro W. apply in_inputs. split; [apply in_map_iff; exists (x, READWRITE); split; [reflexivity | exact H] | exact W].
+  - apply in_outputs_iff. exists READWRITE. split; [exact H | reflexivity].
 Qed.
 
 (* ------------------------------------------------------------------------------------------ *)
